@@ -20,7 +20,10 @@ func handleCEA(sm *StateMachine, errc chan error) diam.HandlerFunc {
 		}
 		cea := new(smparser.CEA)
 		if err := cea.Parse(m, smparser.Client); err != nil {
-			errc <- err
+			select {
+			case errc <- err:
+			default: // a result is already pending, never block the reader
+			}
 			return
 		}
 		meta := smpeer.FromCEA(cea)
